@@ -96,6 +96,8 @@ module Nat :
   val max : nat -> nat -> nat
 
   val min : nat -> nat -> nat
+
+  val div2 : nat -> nat
  end
 
 module Pos :
@@ -204,6 +206,8 @@ val nth_error : 'a1 list -> nat -> 'a1 option
 
 val last : 'a1 list -> 'a1 -> 'a1
 
+val removelast : 'a1 list -> 'a1 list
+
 val rev0 : 'a1 list -> 'a1 list
 
 val map : ('a1 -> 'a2) -> 'a1 list -> 'a2 list
@@ -233,6 +237,10 @@ module Z :
   val compare : z -> z -> comparison
 
   val leb : z -> z -> bool
+
+  val ltb : z -> z -> bool
+
+  val gtb : z -> z -> bool
 
   val eqb : z -> z -> bool
 
@@ -747,6 +755,33 @@ type 'vS op = (pkg * z) * (pkg * 'vS) list
 
 val run : 'a1 op list -> 'a1 provider
 
+type 'i heap = ('i * z) list
+
+val set_nth : nat -> 'a1 -> 'a1 list -> 'a1 list
+
+val swap_pos : 'a1 heap -> nat -> nat -> 'a1 heap
+
+val find_pos : ('a1 -> 'a1 -> bool) -> 'a1 -> 'a1 heap -> nat option
+
+val bubble_up : nat -> 'a1 heap -> nat -> ('a1 * z) -> 'a1 heap * nat
+
+val heapify : nat -> 'a1 heap -> nat -> 'a1 heap
+
+val heap_push : ('a1 -> 'a1 -> bool) -> 'a1 heap -> 'a1 -> z -> 'a1 heap
+
+val heap_pop : 'a1 heap -> (('a1 * z) * 'a1 heap) option
+
+type 'i hop =
+| HPush of 'i * z
+| HPop
+| HClear
+
+val heap_step :
+  ('a1 -> 'a1 -> bool) -> 'a1 heap -> 'a1 hop -> 'a1 heap * ('a1 * z) option
+
+val heap_run :
+  ('a1 -> 'a1 -> bool) -> 'a1 heap -> 'a1 hop list -> ('a1 * z) option list
+
 type pkg0 = n
 
 type ('vS, 'vr) kind =
@@ -1079,6 +1114,19 @@ val resolve_loop :
   -> ('a1, 'a2) result
 
 val resolve :
+  ('a1, 'a2) vSOps -> ('a2 -> 'a2 -> bool) -> nat -> pkg0 -> 'a2 -> ('a1,
+  'a2) event list -> ('a1, 'a2) result
+
+val heap_after_propagation : (pkg0 * (z * 'a1)) list -> pkg0 heap -> pkg0 heap
+
+val heap_pushes : pkg0 heap -> ('a1, 'a2) event list -> pkg0 heap
+
+val resolve_loop_h :
+  ('a1, 'a2) vSOps -> ('a2 -> 'a2 -> bool) -> nat -> ('a1, 'a2) state -> pkg0
+  -> (pkg0 * 'a2) list -> pkg0 heap -> ('a1, 'a2) event list -> nat -> 'a1
+  pick_info list -> ('a1, 'a2) result
+
+val resolve_h :
   ('a1, 'a2) vSOps -> ('a2 -> 'a2 -> bool) -> nat -> pkg0 -> 'a2 -> ('a1,
   'a2) event list -> ('a1, 'a2) result
 
